@@ -230,6 +230,44 @@ func fwApply(op string, raw json.RawMessage) interface{} {
 			return map[string]interface{}{"err": true}
 		}
 		return map[string]interface{}{"ok": len(rules)}
+	case "twonodes":
+		// one parsed rule list handed to two nodes of one process, each of which then adds a rule of its own:
+		// every node decides by its own list
+		base := []FirewallRuleData{}
+		for i := 0; i < 3; i++ {
+			base = append(base, FirewallRuleData{"action": "accept", "tonode": fmt.Sprintf("zz%d", i)})
+		}
+		rules, err := ParseFirewallRules(base)
+		if err != nil {
+			panic(err)
+		}
+		n1, c1 := verifQuietNode("fw-n1", 30)
+		defer c1()
+		n2, c2 := verifQuietNode("fw-n2", 30)
+		defer c2()
+		_ = n1.AddFirewallRules(rules, true)
+		_ = n2.AddFirewallRules(rules, true)
+		e1, _ := ParseFirewallRules([]FirewallRuleData{{"action": "drop", "toservice": "s1"}})
+		e2, _ := ParseFirewallRules([]FirewallRuleData{{"action": "reject", "toservice": "s2"}})
+		_ = n1.AddFirewallRules(e1, false)
+		_ = n2.AddFirewallRules(e2, false)
+		verdict := func(n *Netceptor, svc string) string {
+			md := &MessageData{FromNode: "a", FromService: "x", ToNode: "b", ToService: svc}
+			n.firewallLock.RLock()
+			defer n.firewallLock.RUnlock()
+			for _, r := range n.firewallRules {
+				switch r(md) {
+				case FirewallResultAccept:
+					return "accept"
+				case FirewallResultReject:
+					return "reject"
+				case FirewallResultDrop:
+					return "drop"
+				}
+			}
+			return "accept"
+		}
+		return map[string]interface{}{"n1": []string{verdict(n1, "s1"), verdict(n1, "s2")}, "n2": []string{verdict(n2, "s1"), verdict(n2, "s2")}}
 	}
 	panic("verif: unknown op " + op)
 }
@@ -306,6 +344,9 @@ func fwGen(v *verifRun) {
 			a.Rules = append(a.Rules, v.fwRule(&bad))
 		}
 		v.do(fwApply, "parse", a)
+		if i == 0 {
+			v.do(fwApply, "twonodes", fwArgs{Rules: [][]fwKVArg{}})
+		}
 	}
 }
 
